@@ -253,6 +253,10 @@ def run(prop, tier, judge_prop=None, level="model_checking", extra_cov=None, cas
             drift = "strict conformance with the pipeline model diverges in %s%s" % (os.path.basename(chunk), where)
 
     C.log("[%s] phases: model %.1fs, harness %.1fs, judging %.1fs" % (prop, t_mc, t_h, time.time() - t0 - t_mc - t_h))
+    unrep = list(UNREPRODUCED)
+    del UNREPRODUCED[:]
+    if unrep and not violations and not part:
+        raise C.Infra("%d rejected traces, none of which reproduced in isolation or after the earlier calls of their case (first: %s)" % (len(unrep), unrep[0]))
     # 4. settle + evidence
     code = 0 if part else C.settle(prop, violations)
     cov = {
@@ -270,6 +274,8 @@ def run(prop, tier, judge_prop=None, level="model_checking", extra_cov=None, cas
         "samples": summ["samples"][:4],
         "rule": "every world within the fault budget x every option setting, TLC-enumerated, plus seeded random worlds with 3-5 deviating dimensions; each run of the real code is one trace",
     }
+    if unrep and part:
+        cov["unreproduced"] = unrep
     if extra_cov:
         cov.update(extra_cov)
     if drift:
@@ -284,6 +290,9 @@ def run(prop, tier, judge_prop=None, level="model_checking", extra_cov=None, cas
                       "the world generator (harness/gen) realises each abstract value as documented; its self-check aborts on disagreement",
                       "Go crypto/x509, crypto/ecdsa, encoding/json are trusted", "cryptographic facts (no forgery, no collision) are axioms"])
     return code, violations, cov
+
+
+UNREPRODUCED = []   # rejected traces of this run that reproduced neither alone nor after their predecessors
 
 
 def collect_violations(prop, judge_prop, chunk, n, jr, wd, binary, tier, limit):
@@ -311,7 +320,26 @@ def collect_violations(prop, judge_prop, chunk, n, jr, wd, binary, tier, limit):
         if reproduce(prop, judge_prop, replay, binary, wd):
             out.append(dict(key=key, replay=replay, text="observed %s: %s" % (ret and ret.get("verdict"), (ret or {}).get("err", "")[:160])))
         else:
-            raise C.Infra("rejected trace did not reproduce in isolation: %s" % replay)
+            # the verdict of a call may depend on the calls made before it in the same process (a cache, left-over state): replay the
+            # calls of this case up to this one, in their order; only if that does not reproduce either is the rejection unexplained
+            earlier = []
+            for ln in open(cur_chunk):
+                if '"ev":"Call"' in ln:
+                    e = json.loads(ln)
+                    if e["case"] == call["case"] and e.get("bit") == call.get("bit"):
+                        earlier.append(e["o"])
+                        if e.get("sub") == call.get("sub"):
+                            break
+            replay2 = C.write_replay(prop, "%d-%d-seq" % (call["case"], call.get("sub", 0)),
+                                     dict(property=prop, judge=judge_prop, seed=C.seed(), tier=tier, case=dict(id=call["case"], w=call["w"], runs=earlier),
+                                          bit=call.get("bit"), observed=evs, key=key + " (after the earlier calls of this case)"))
+            if len(earlier) > 1 and reproduce(prop, judge_prop, replay2, binary, wd):
+                out.append(dict(key=key + " (after the earlier calls of this case)", replay=replay2,
+                                text="observed %s: %s" % (ret and ret.get("verdict"), (ret or {}).get("err", "")[:160])))
+            else:
+                UNREPRODUCED.append(replay)
+                if len(UNREPRODUCED) > 12:
+                    raise C.Infra("%d rejected traces did not reproduce in isolation (first: %s)" % (len(UNREPRODUCED), UNREPRODUCED[0]))
         rounds += 1
         if rounds >= limit:
             C.log("[%s] %d witnesses reported; further rejected traces are not enumerated" % (prop, rounds))
